@@ -56,6 +56,7 @@ def cases(draw):
         "group": draw(st.integers(0, 3)),
         "per_tensor_w": draw(st.integers(0, 5)) == 0,
         "act_axis": draw(st.sampled_from([None, None, None, None, 0, -1])),  # quantized activations may also be per-axis
+        "wlayout": draw(st.sampled_from(["contig", "contig", "colmajor", "expanded"])),
         "seed": draw(st.integers(0, 2**20)),
     }
 
@@ -117,6 +118,19 @@ def quantize_laid_out(xc, aq, scale, layout):
     return SymmetricQuantizer.apply(xc, aq, None, scale)
 
 
+def wsrc(wfloat, case):
+    """the float weights in the memory layout the checkpoint happens to have: row-major, or column-major (a transposed
+    Conv1D-style matrix: the quantized payload inherits that layout)"""
+    return wfloat.t().contiguous().t() if case.get("wlayout") == "colmajor" else wfloat
+
+
+def wexpand(w, case):
+    """one quantized row shared by every output feature (an expanded Tensor: rows overlap in memory)"""
+    if case.get("wlayout") == "expanded" and isinstance(w, QBytesTensor) and w.axis is None and w.shape[0] > 1:
+        return w[:1].expand(w.shape)
+    return w
+
+
 def build(case):
     """-> activations (float or QBytesTensor), quantized weight, bias or None"""
     dtype = gen.DT[case["dtype"]]
@@ -147,9 +161,9 @@ def build(case):
             wc = sparse_codes([N, K], K, -2, 2, g)
             rs = (2.0 ** torch.arange(N).remainder(3)).reshape(N, 1)
             if case["per_tensor_w"] or N == 1 or case["entry"] == "bmm":
-                w = SymmetricQuantizer.apply((wc * ws).to(dtype), wqt, None, torch.tensor(ws, dtype=dtype))
+                w = wexpand(SymmetricQuantizer.apply(wsrc((wc * ws).to(dtype), case), wqt, None, torch.tensor(ws, dtype=dtype)), case)
             else:
-                w = SymmetricQuantizer.apply((wc * ws * rs).to(dtype), wqt, 0, (ws * rs).to(dtype))
+                w = SymmetricQuantizer.apply(wsrc((wc * ws * rs).to(dtype), case), wqt, 0, (ws * rs).to(dtype))
         else:
             top = 2**wqt.bits - 1
             wc = sparse_codes([N, K], K, 0, min(top, 2), g)
@@ -183,9 +197,9 @@ def build(case):
     rowf = 10.0 ** (torch.rand(N, 1, generator=g, dtype=torch.float64) * 2 - 1)
     wf = gen.clamp_finite(torch.randn(N, K, generator=g, dtype=torch.float64) * 0.3 * rowf, dtype)
     if wqt.bits == 8 and (case["entry"] == "bmm" or case["per_tensor_w"]):
-        w = SymmetricQuantizer.apply(wf, wqt, None, absmax_scale(wf, wqt))
+        w = wexpand(SymmetricQuantizer.apply(wsrc(wf, case), wqt, None, absmax_scale(wf, wqt)), case)
     elif wqt.bits == 8:
-        w = quantize_weight(wf, wqt, 0)
+        w = quantize_weight(wsrc(wf, case), wqt, 0)
     else:
         divs = [None] + [d for d in (32, 64, 128, K // 2 if K % 2 == 0 else None) if d and K % d == 0 and d <= K]
         w = quantize_weight(wf, wqt, 0, divs[case["group"] % len(divs)])
@@ -337,10 +351,10 @@ def exec_case(case):
         out.fail(f"{entry}/{tagbase}/operands-modified", f"the operands dequantize to other values after the call than before it ({case['act']} x {case['wq']}, {case['dtype']})")
     taken = [k for k in ROUTES if ROUTES[k] != before.get(k, 0)]
     out.klass = [f"act-{xk}", f"w-{wk}", case["dtype"], f"entry-{entry}", f"mode-{case['mode']}"] + [f"route-{t}" for t in taken] + [
-        "rows>16" if case["rows"] > 16 else "rows<=16", f"inf%16={case['inf'] % 16 == 0}", f"layout-{case['layout']}"]
+        "rows>16" if case["rows"] > 16 else "rows<=16", f"inf%16={case['inf'] % 16 == 0}", f"layout-{case['layout']}", f"wlayout-{case.get('wlayout', 'contig')}"]
     default = case["dtype"] == "fp32" and case["act"] == "float" and case["inf"] % 32 == 0 and case["inf"] == case["outf"]
     out.nontrivial = not default
-    out.fingerprint = [case[k] for k in ("dtype", "act", "wq", "rows", "brank", "inf", "outf", "bias", "mode", "entry", "layout")] + [case.get("act_axis")]
+    out.fingerprint = [case[k] for k in ("dtype", "act", "wq", "rows", "brank", "inf", "outf", "bias", "mode", "entry", "layout")] + [case.get("act_axis"), case.get("wlayout")]
     return out
 
 
@@ -375,6 +389,12 @@ def run_grid(ctx):
                                     cs.append({"dtype": dt, "act": act, "wq": wq, "rows": r, "brank": 1 + (k % 2), "inf": k, "outf": n, "bias": True, "mode": "exact",
                                                "entry": "linear", "layout": "contig", "ascale": "absmax", "group": 0, "per_tensor_w": False, "act_axis": ax,
                                                "seed": ctx.seed * 1000 + r + 7 * k + 13 * n + 1})
+                            if entry in ("linear", "mm") and wq not in ("qint4", "qint2") and (r + k) % 2 == 0:
+                                # ... and the weights' own layout: column-major payload, rows shared by expansion (per-tensor weights)
+                                for wl in ("colmajor",) + (("expanded",) if ptw else ()):
+                                    cs.append({"dtype": dt, "act": act, "wq": wq, "rows": r, "brank": 1, "inf": k, "outf": n, "bias": False, "mode": "exact",
+                                               "entry": entry, "layout": "contig", "ascale": "absmax", "group": 0, "per_tensor_w": ptw, "wlayout": wl,
+                                               "seed": ctx.seed * 1000 + r + 7 * k + 13 * n + 3})
                             if entry == "linear" and wq not in ("qint4", "qint2"):
                                 # the kernels behind 8-bit weights read the activations' strides: every size triple in every layout
                                 # (a one-row batch transposed has a size-1 dim with a non-canonical stride and still "is contiguous")
